@@ -13,6 +13,15 @@ pub(crate) struct SpecialPrefixBackend<B: Backend> {
     inner: B,
 }
 
+/// more members than this are not addressable as `item<N>`; keeps the symbol table small
+const MAX_ITEM_INDEX: usize = 1 << 16;
+
+/// the tuple member index of a special `item<N>` identifier
+fn special_index(string: &str) -> Option<usize> {
+    let m = RE.captures(string)?;
+    m[1].parse().ok().filter(|idx| *idx <= MAX_ITEM_INDEX)
+}
+
 lazy_static! {
     // only the canonical spelling `item<N>` (no suffix, no leading zeros) is special, so that distinct
     // identifiers never share a symbol
@@ -55,8 +64,7 @@ impl<B: Backend> Backend for SpecialPrefixBackend<B> {
     }
 
     fn intern(&mut self, string: &str) -> Self::Symbol {
-        if let Some(m) = RE.captures(string) {
-            let idx: usize = m[1].parse().unwrap();
+        if let Some(idx) = special_index(string) {
             if self.items.len() <= idx {
                 self.items
                     .extend(iter::repeat(None).take(idx - self.items.len()));
@@ -71,8 +79,7 @@ impl<B: Backend> Backend for SpecialPrefixBackend<B> {
     }
 
     fn intern_static(&mut self, string: &'static str) -> Self::Symbol {
-        if let Some(m) = RE.captures(string) {
-            let idx: usize = m[1].parse().unwrap();
+        if let Some(idx) = special_index(string) {
             if self.items.len() <= idx || self.items[idx].is_none() {
                 self.items
                     .extend(iter::repeat(None).take(idx - self.items.len() - 1));
